@@ -8,7 +8,7 @@ COMMON_TRUSTED_BASE = [
 
 PROPS = {}
 NOT_CLAIMED = {}
-HOOK_COMMITS = ["7ec16b3d"]
+HOOK_COMMITS = ["7ec16b3d", "7b24226a"]
 
 PROPS["C14"] = dict(
     level="proof",
